@@ -317,7 +317,14 @@ def run_property(modname, tier, seed=0):
             else:
                 new.append((sig + " [intermittent %d/10: outcome depends on per-map hash seeds]" % seen, path, v["detail"]))
         else:
-            print("MACHINERY ERROR in %s: violation %r did not reproduce (%d/10)" % (prop, sig, seen))
+            sts = sorted({str(r.get("st")) for r in v["results"]})
+            if set(sts) & {"hang", "abort", "fuel", "missing", "pre_error"}:
+                # the first observation was a resource verdict (watchdog, engine death, allocation failure) and ten isolated
+                # replays all completed normally: a transient of the loaded machine, not a behaviour of the subject
+                print("TRANSIENT (not counted): property=%s %s: first observation had statuses %s, 0/10 isolated replays reproduce it" % (prop, sig, sts))
+                extra["transient_resource_events"] += 1
+                continue
+            print("MACHINERY ERROR in %s: violation %r did not reproduce (%d/10); statuses of the first observation: %s" % (prop, sig, seen, sts))
             sys.exit(2)
     eng.stop()
     for sig, path, detail in new:
